@@ -3,6 +3,10 @@ package fam
 import (
 	"encoding/json"
 	"fmt"
+	"go/ast"
+	"go/build"
+	"go/parser"
+	"go/token"
 	"math/rand/v2"
 	"os"
 	"path/filepath"
@@ -118,6 +122,50 @@ func rdComment(b *strings.Builder, indent string, lines []rdLine) {
 	}
 }
 
+var (
+	stdFieldsOnce sync.Once
+	stdFields     []rdField
+)
+
+// stdProcAttrFields: the documented fields of os.ProcAttr whose documentation does not begin with the field's own name, with
+// the doc lines read from the library's source by go/parser (never through gengo).
+func stdProcAttrFields() []rdField {
+	stdFieldsOnce.Do(func() {
+		fset := token.NewFileSet()
+		f, err := parser.ParseFile(fset, filepath.Join(build.Default.GOROOT, "src", "os", "exec.go"), nil, parser.ParseComments)
+		if err != nil {
+			return
+		}
+		ast.Inspect(f, func(n ast.Node) bool {
+			ts, ok := n.(*ast.TypeSpec)
+			if !ok || ts.Name.Name != "ProcAttr" {
+				return true
+			}
+			st, ok := ts.Type.(*ast.StructType)
+			if !ok {
+				return false
+			}
+			for _, fld := range st.Fields.List {
+				if len(fld.Names) != 1 || fld.Doc == nil {
+					continue
+				}
+				name := fld.Names[0].Name
+				text := strings.TrimSpace(fld.Doc.Text())
+				if strings.HasPrefix(text, name) {
+					continue // (whether a leading FIELD name is removed is left open by the statement)
+				}
+				lines := []rdLine{}
+				for _, ln := range strings.Split(text, "\n") {
+					lines = append(lines, rdLine{Class: "std", Text: ln, Stripped: ln})
+				}
+				stdFields = append(stdFields, rdField{Name: name, Exported: true, FType: "scalar", Embedded: "no", Doc: lines, InnerDoc: []rdLine{}})
+			}
+			return false
+		})
+	})
+	return append([]rdField{}, stdFields...)
+}
+
 func rdConcretise(j int, rc rdCase) rdConc {
 	name := fmt.Sprintf("T%d", j)
 	cc := rdConc{Exported: true, Kind: rc.Kind, Name: name, Fields: []rdField{}}
@@ -132,6 +180,8 @@ func rdConcretise(j int, rc rdCase) rdConc {
 	}
 	extra := ""
 	switch rc.Kind {
+	case "fromStd":
+		cc.Fields = append(cc.Fields, stdProcAttrFields()...)
 	case "struct", "genericStruct":
 		switch rc.FieldPat {
 		case "one":
@@ -221,6 +271,8 @@ func rdConcretise(j int, rc rdCase) rdConc {
 		fmt.Fprintf(&b, "type %s func() error\n", cc.Name)
 	case "interface":
 		fmt.Fprintf(&b, "type %s interface{ M() }\n", cc.Name)
+	case "fromStd":
+		fmt.Fprintf(&b, "type %s os.ProcAttr\n", cc.Name)
 	case "struct", "genericStruct":
 		if rc.Kind == "genericStruct" {
 			fmt.Fprintf(&b, "type %s[X any] struct {\n", cc.Name)
@@ -388,7 +440,13 @@ func rdModule(from, to, perPkg int, concs []rdConc, obsOf []map[string]any) erro
 	for p := from; p < to; p += perPkg {
 		pkg := fmt.Sprintf("pk%d", p)
 		var src, probes strings.Builder
-		fmt.Fprintf(&src, "package %s\n\n// A0first sorts before every other type of the package and renders nothing (no exported field).\ntype A0first struct {\n\thidden int\n}\n\n", pkg)
+		needOS := ""
+		for j := p; j < min(p+perPkg, to); j++ {
+			if concs[j].Kind == "fromStd" {
+				needOS = "import \"os\"\n\n"
+			}
+		}
+		fmt.Fprintf(&src, "package %s\n\n"+needOS+"// A0first sorts before every other type of the package and renders nothing (no exported field).\ntype A0first struct {\n\thidden int\n}\n\n", pkg)
 		fmt.Fprintf(&probes, "package %s\n\n// Probes hands the probe program one value of every type of the package.\nfunc Probes() map[int]any {\n\treturn map[int]any{\n", pkg)
 		for j := p; j < min(p+perPkg, to); j++ {
 			pkgOf[j] = pkg
